@@ -829,13 +829,14 @@ class _FPCore2FPy:
         # force for the annotations inside the body
         ctx.props = dict(props)
 
-        # possibly generate context
-        if 'precision' in props:
+        # possibly generate context: any of the properties that select one
+        # (a lone `:round` rounds binary64, the default precision, its way)
+        if any(k in props for k in ('precision', 'round', 'overflow')):
             try:
                 ctx_val: None | Context | FPCoreContext = FPCoreContext(**props).to_context()
             except NoSuchContextError:
                 ctx_val = FPCoreContext(**props)
-            del props['precision']
+            props.pop('precision', None)
         else:
             ctx_val = None
 
